@@ -423,7 +423,8 @@ CHECKS["C09"] = {
 
 # ---------------------------------------------------------------------------------------------------------------
 _C13R = ["github.com/obolnetwork/charon/app/k1util.Sign=.vSign", "github.com/obolnetwork/charon/app/k1util.Recover=.vRecover",
-         "github.com/obolnetwork/charon/p2p.PeerIDToKey=.vPeerKey", "crypto/sha256.New=.vNewHash"]
+         "github.com/obolnetwork/charon/p2p.PeerIDToKey=.vPeerKey", "github.com/obolnetwork/charon/p2p.PeerIDFromKey=.vPeerIDFromKey",
+         "crypto/sha256.New=.vNewHash"]
 CHECKS["C13"] = {
     "pkg": "./dkg/bcast",
     "parallel": 4,
